@@ -56,6 +56,12 @@ def run_c20(tier, seed):
             json.dump(dict(kind='life', seed=r[0], steps=r[1], line=idx, event=bad, context=evs[max(0, idx - 8):idx + 1]), open(os.path.join(rd, 'replay.json'), 'w'), indent=1)
             out.violation('LifeTrace cannot explain event #%d %s (seed=%d)' % (idx, json.dumps(bad)[:240], r[0]), rd, dict(kind='life', event=(bad or {}).get('e')))
         c.rmtree(d)
+    # backups taken while other threads write, flush and compact (opened and scanned in another process), decided by ConcTrace
+    from . import p_conc
+    cst = {}
+    if not out.full():
+        p_conc.conc_layer(prop, 'ConcTrace_C08.cfg', tier, seed, out, cst)
+        cst.pop('sample', None)
     mc = {}
     r = c.tlc('Life', 'Life.cfg', workers=2, timeout=120, deadlock=False)
     if r.error and not r.violated: raise Broken('Life model check failed: %s' % r.error)
@@ -65,7 +71,7 @@ def run_c20(tier, seed):
         out.violation('Life.tla: %s violated' % r.violated, rd, dict(kind='mc'))
     rc = out.finish()
     cov = dict(states=st['states'] + mc.get('states', 0), transitions=st['states'] + mc.get('transitions', 0), traces_validated_against_impl=st['executions'],
-               samples=[sample or []], life_trace=st, life_mc=mc, exhaustive=False)
+               samples=[sample or []], life_trace=st, life_mc=mc, concurrent_backups=cst, exhaustive=False)
     c.write_evidence(prop, tier, seed, 'model_checking', cov, time.time() - t0, violations=len(out.violations),
                      assumptions=['two cooperating processes (fcntl locks are per process); the lock model in Life.tla includes the POSIX rule that closing any descriptor drops the process\'s locks',
                                   'comparator-mismatch non-modification is checked on the directory listing (info-log rotation and LOCK are not modification) and by later scans'])
